@@ -225,6 +225,11 @@ def main():
         raise hg.MachineryError("Resolution.tla violates its invariants (spec defect):\n" + res.violation)
     chk.add_tlc(res, "Resolution-exhaustive")
     chk.coverage["exhaustive"] = True
+    if not quick:   # families of four (all 24 registration orders), model checked only
+        res4 = hg.tlc("MCResolution", "Resolution.fam4.cfg", timeout=3600)
+        if res4.violation:
+            raise hg.MachineryError("Resolution.tla violates its invariants for families of four (spec defect):\n" + res4.violation)
+        chk.add_tlc(res4, "Resolution-families-of-4")
     pool = hg.printed_json(res, "POOL")
     if not pool:
         raise hg.MachineryError("MCResolution did not print its pools")
@@ -250,78 +255,86 @@ def main():
         args = rng.choice(args_of["b" if two else "u"])
         cases.append(("r%d" % k, [cand_of[l] for l in fam], args, all_orders(fam, rng, 12), None))
 
-    scns = [scenario_text(name, cands, args, orders) for name, cands, args, orders, _ in cases]
-    traces = hg.run_driver("resolve", scns, timeout_per=5.0)
-    items, drift = [], {"rank_formula": 0, "pattern_rank": 0, "effective_rank": 0, "survivor_set": 0, "outcome": 0, "observer": 0}
-    drift_samples = []
-    singles = {}
-    for k, ((name, cands, args, orders, model), scn, tr) in enumerate(zip(cases, scns, traces)):
-        if isinstance(tr, dict):
-            chk.count({"scn": scn})
-            chk.violation("crash:" + name.rstrip("0123456789"), "driver crashed/hung: %s" % json.dumps(tr)[:300], "# %s\n%s\n" % (name, scn))
-            continue
-        bad = [e for e in tr if e["e"] == "harnessfail"]
-        if bad:
-            raise hg.MachineryError("driver rejected scenario %s: %s\n%s" % (name, bad[0].get("msg"), scn))
-        solo = [e for e in tr if e["e"] == "solo"]
-        ress = [e for e in tr if e["e"] == "res"]
-        if len(solo) != 1 or len(ress) != len(orders):
-            raise hg.MachineryError("malformed trace for %s: %s" % (name, json.dumps(tr)[:400]))
-        chk.count({"fam": [c["l"] for c in cands], "args": [term_text(x) for x in args]},
-                  nontrivial=len(cands) > 1 and any(c["m"] for c in solo[0]["c"]))
-        items.append(trace_item(k, cands, args, tr))
-        for e in ress:
-            if e["kind"] == "ok" and e["dsel"] != e["sel"]:
-                drift["observer"] += 1
-        if len(cands) == 1 and len(args) == 1:
-            c = solo[0]["c"][0]
-            base, acc = singles.setdefault(c["l"], (c["base"], set()))
-            if c["m"]:
-                acc.add(term_text(args[0]))
-        if model is None:
-            continue
-        # level B predictions
-        pred = {p["l"]: p for p in model["pred"]}
-        for c in solo[0]["c"]:
-            p = pred[c["l"]]
-            for key, field in (("rank_formula", "base"), ("pattern_rank", "prank"), ("effective_rank", "eff")):
-                if c[field] != p[field]:
-                    drift[key] += 1
-                    if len(drift_samples) < 5:
-                        drift_samples.append("%s %s: tree %s=%d, Resolution.tla predicts %d (args %s)" % (
-                            name, cand_line(cand_of[c["l"]]), field, c[field], p[field], ";".join(term_text(x) for x in args)))
-            if bool(c["m"]) != bool(p["m"]):
-                drift["survivor_set"] += 1
-                if len(drift_samples) < 5:
-                    drift_samples.append("%s %s: tree %s args %s, Resolution.tla predicts the opposite" % (
-                        name, cand_line(cand_of[c["l"]]), "accepts" if c["m"] else "rejects", ";".join(term_text(x) for x in args)))
-        want = canon_model(model["exp"])
-        for e in ress:
-            if canon_driver(e) != want:
-                drift["outcome"] += 1
-                if len(drift_samples) < 5:
-                    drift_samples.append("%s order %s: tree %s, Resolution.tla predicts %s" % (name, ",".join(e["order"]), canon_driver(e), want))
-
-    verdicts, st, trn = {}, 0, 0
-    for lo in range(0, len(items), 8000):   # bounded batches keep each JVM's trace file small
-        v, s1, t1 = tracecheck.validate("ResolutionTrace", "ResolutionTrace.cfg", items[lo:lo + 8000], "c19", keep=KEEP)
-        verdicts.update(v)
+    drift = {"rank_formula": 0, "pattern_rank": 0, "effective_rank": 0, "survivor_set": 0, "outcome": 0, "observer": 0}
+    drift_samples, singles, sample_scns = [], {}, {}
+    st = trn = nitems = nres = 0
+    CHUNK = 30000   # bounded memory: scenarios are replayed and validated chunk by chunk
+    for lo in range(0, len(cases), CHUNK):
+        part = cases[lo:lo + CHUNK]
+        scns = [scenario_text(name, cands, args, orders) for name, cands, args, orders, _ in part]
+        for k in (0, len(printed) // 2, len(cases) - 1):
+            if lo <= k < lo + CHUNK:
+                sample_scns[k] = scns[k - lo]
+        traces = hg.run_driver("resolve", scns, timeout_per=5.0)
+        items = []
+        for j, ((name, cands, args, orders, model), scn, tr) in enumerate(zip(part, scns, traces)):
+            k = lo + j
+            if isinstance(tr, dict):
+                chk.count({"scn": scn})
+                chk.violation("crash:" + name.rstrip("0123456789"), "driver crashed/hung: %s" % json.dumps(tr)[:300], "# %s\n%s\n" % (name, scn))
+                continue
+            bad = [e for e in tr if e["e"] == "harnessfail"]
+            if bad:
+                raise hg.MachineryError("driver rejected scenario %s: %s\n%s" % (name, bad[0].get("msg"), scn))
+            solo = [e for e in tr if e["e"] == "solo"]
+            ress = [e for e in tr if e["e"] == "res"]
+            if len(solo) != 1 or len(ress) != len(orders):
+                raise hg.MachineryError("malformed trace for %s: %s" % (name, json.dumps(tr)[:400]))
+            chk.count({"fam": [c["l"] for c in cands], "args": [term_text(x) for x in args]},
+                      nontrivial=len(cands) > 1 and any(c["m"] for c in solo[0]["c"]))
+            items.append(trace_item(k, cands, args, tr))
+            nres += len(ress)
+            for e in ress:
+                if e["kind"] == "ok" and e["dsel"] != e["sel"]:
+                    drift["observer"] += 1
+            if len(cands) == 1 and len(args) == 1:
+                c = solo[0]["c"][0]
+                base, acc = singles.setdefault(c["l"], (c["base"], set()))
+                if c["m"]:
+                    acc.add(term_text(args[0]))
+            if model is None:
+                continue
+            # level B predictions
+            pred = {p["l"]: p for p in model["pred"]}
+            for c in solo[0]["c"]:
+                p = pred[c["l"]]
+                for key, field in (("rank_formula", "base"), ("pattern_rank", "prank"), ("effective_rank", "eff")):
+                    if c[field] != p[field]:
+                        drift[key] += 1
+                        if len(drift_samples) < 6:
+                            drift_samples.append("%s %s: tree %s=%d, Resolution.tla predicts %d (args %s)" % (
+                                name, cand_line(cand_of[c["l"]]), field, c[field], p[field], ";".join(term_text(x) for x in args)))
+                if bool(c["m"]) != bool(p["m"]):
+                    drift["survivor_set"] += 1
+                    if len(drift_samples) < 6:
+                        drift_samples.append("%s %s: tree %s args %s, Resolution.tla predicts the opposite" % (
+                            name, cand_line(cand_of[c["l"]]), "accepts" if c["m"] else "rejects", ";".join(term_text(x) for x in args)))
+            want = canon_model(model["exp"])
+            for e in ress:
+                if canon_driver(e) != want:
+                    drift["outcome"] += 1
+                    if len(drift_samples) < 6:
+                        drift_samples.append("%s order %s: tree %s, Resolution.tla predicts %s" % (name, ",".join(e["order"]), canon_driver(e), want))
+        # more than a few concurrent JVMs are slower than one here (start-up dominates): 1..4 shards
+        verdicts, s1, t1 = tracecheck.validate("ResolutionTrace", "ResolutionTrace.cfg", items, "c19",
+                                               shards=max(1, min(4, len(items) // 4000)), keep=KEEP)
         st += s1
         trn += t1
+        nitems += len(items)
+        for it in items:
+            k = it["id"]
+            acc, why = verdicts[k]
+            if why:
+                name, cands, args = cases[k][0], cases[k][1], cases[k][2]
+                chk.violation("res:%s:%s" % (why, ",".join(c["l"] for c in cands) + "|" + ";".join(term_text(x) for x in args)),
+                              "ResolutionTrace.tla rejects the recorded resolution at event %d: %s\nfamily: %s\narguments: %s\nevent: %s" % (
+                                  acc + 1, why, " | ".join(cand_line(c) for c in cands), ";".join(term_text(x) for x in args),
+                                  json.dumps(it["ev"][acc])[:600] if acc < len(it["ev"]) else ""),
+                              "# %s\n# %s\n%s\n" % (name, why, scns[k - lo]))
     chk.coverage["states"] += st
     chk.coverage["transitions"] += trn
-    chk.coverage["traces_validated_against_impl"] += len(items)
-    chk.notes["resolutions_validated"] = sum(len(it["ev"]) - 2 for it in items)
-    for it in items:
-        k = it["id"]
-        acc, why = verdicts[k]
-        if why:
-            name = cases[k][0]
-            chk.violation("res:%s:%s" % (why, ",".join(c["l"] for c in cases[k][1]) + "|" + ";".join(term_text(x) for x in cases[k][2])),
-                          "ResolutionTrace.tla rejects the recorded resolution at event %d: %s\nfamily: %s\narguments: %s\nevent: %s" % (
-                              acc + 1, why, " | ".join(cand_line(c) for c in cases[k][1]), ";".join(term_text(x) for x in cases[k][2]),
-                              json.dumps(it["ev"][acc])[:600] if acc < len(it["ev"]) else ""),
-                          "# %s\n# %s\n%s\n" % (name, why, scns[k]))
+    chk.coverage["traces_validated_against_impl"] += nitems
+    chk.notes["resolutions_validated"] = nres
     chk.notes["drift_vs_level_B"] = drift
     if any(drift.values()):
         print("DRIFT: the tree disagrees with level B of Resolution.tla although ResolutionTrace (level A) decides the verdict: "
@@ -331,8 +344,8 @@ def main():
         chk.notes["drift_samples"] = drift_samples
     sub = subsumption_report(singles)
     chk.notes["informational_subsumption_vs_rank"] = sub[:40]
-    for k in (0, len(printed) // 2, len(cases) - 1):
-        chk.sample({"scenario": scns[k].splitlines()})
+    for k in sorted(sample_scns):
+        chk.sample({"scenario": sample_scns[k].splitlines()})
     chk.coverage["rule"] = (
         "Resolution.tla exhaustively: every family of 1..%d overloads of one arity drawn from %s candidates x every argument tuple "
         "of that arity x every registration order (+ mixed-arity families); each (family, arguments) is replayed in all registration "
